@@ -526,4 +526,141 @@ def extractWindow {α} (dflt : α) (feat : List α) (frame left right : Nat) (re
     else pySlice feat (frame - left) (frame + right + 1)
   if reverse then w.reverse else w
 
+/-! ## The loader's public attributes, assigned after construction
+
+`loader.batch_first` and `loader.sort_batch` are plain attributes of the loader object,
+`loader.dataset.suppress_alis`, `.suppress_uttids`, `.tokens_only` plain attributes of its data set.
+`collate_fn` is a BOUND METHOD (`self.collate_fn`): every call reads `self.batch_first`,
+`self.sort_batch`, `self.dataset.suppress_*` afresh; `dataset[i]` reads the data set's flags at every
+call. So an assignment after construction - before a pass, between passes, between two `next` calls
+of a live iterator (`num_workers = 0`) - takes effect at the next collate call and never touches the
+samplers. `batch_sampler.drop_incomplete` (`drop_last` for torch's `BatchSampler`) is the batch
+sampler's own public attribute. -/
+
+/-- The presentation flags a collate call / `dataset[i]` reads. -/
+structure Present where
+  batchFirst : Bool       -- `loader.batch_first`
+  sortBatch : Bool        -- `loader.sort_batch`
+  suppressAlis : Bool     -- `loader.dataset.suppress_alis`
+  suppressUttids : Bool   -- `loader.dataset.suppress_uttids`
+  tokensOnly : Bool       -- `loader.dataset.tokens_only`
+  deriving Repr, DecidableEq
+
+inductive Attr where
+  | batchFirst | sortBatch | suppressAlis | suppressUttids | tokensOnly
+  deriving Repr, DecidableEq
+
+/-- `obj.attr = v`. -/
+def Present.set (p : Present) : Attr → Bool → Present
+  | .batchFirst, v => { p with batchFirst := v }
+  | .sortBatch, v => { p with sortBatch := v }
+  | .suppressAlis, v => { p with suppressAlis := v }
+  | .suppressUttids, v => { p with suppressUttids := v }
+  | .tokensOnly, v => { p with tokensOnly := v }
+
+def Present.get (p : Present) : Attr → Bool
+  | .batchFirst => p.batchFirst
+  | .sortBatch => p.sortBatch
+  | .suppressAlis => p.suppressAlis
+  | .suppressUttids => p.suppressUttids
+  | .tokensOnly => p.tokensOnly
+
+/-- `loader.batch_sampler.drop_incomplete = d` (`.drop_last = d` for torch's `BatchSampler`). The
+epoch sampler - whose `on_uneven_distributed` mode the CONSTRUCTOR derived from `params.drop_last` -
+is not touched. -/
+def Loader.setDrop (l : Loader) (d : Bool) : Loader := { l with cfg := { l.cfg with drop := d } }
+
+/-- A loader session together with the flags currently stored on the loader / its data set. -/
+structure View where
+  session : Session
+  present : Present
+
+/-- The constructor: `flags` are the values given in the call (or the class defaults). -/
+def View.new (l : Loader) (flags : Present) : View := ⟨Session.new l, flags⟩
+
+inductive VOp where
+  | io (op : IOp)                   -- any operation of the `Session` language
+  | assign (a : Attr) (v : Bool)    -- `loader.batch_first = v`, .., `loader.dataset.tokens_only = v`
+  | setDrop (d : Bool)              -- `loader.batch_sampler.drop_incomplete = d`
+  deriving Repr, DecidableEq
+
+/-- What an operation does to the stored flags. -/
+def VOp.apply : VOp → Present → Present
+  | .assign a v, p => p.set a v
+  | _, p => p
+
+/-- One operation: what the session shows (index level: which utterances, which epoch, `len`) paired
+with the flags a collate call made by this operation reads. An assignment only stores the value. -/
+def View.step (perm : Nat → List Nat) (op : VOp) (v : View) : (Out × Present) × View :=
+  match op with
+  | .io o =>
+    let r := Session.step perm o v.session
+    ((r.1, v.present), ⟨r.2, v.present⟩)
+  | .assign a b => ((.unit, v.present.set a b), ⟨v.session, v.present.set a b⟩)
+  | .setDrop d => ((.unit, v.present), ⟨{ v.session with loader := v.session.loader.setDrop d }, v.present⟩)
+
+def View.exec (perm : Nat → List Nat) : List VOp → View → List (VOp × Out × Present) × View
+  | [], v => ([], v)
+  | op :: ops, v =>
+    let r := View.step perm op v
+    let rest := View.exec perm ops r.2
+    ((op, r.1) :: rest.1, rest.2)
+
+/-- The `Session` operations of a script, the flags after a script. -/
+def ioOps (script : List VOp) : List IOp :=
+  script.filterMap (fun op => match op with | .io o => some o | _ => none)
+
+def presentAfter (p : Present) (script : List VOp) : Present := script.foldl (fun p op => op.apply p) p
+
+/-- What the caller gets to see when index batches are collated by `deliver flags batch`. -/
+inductive Shown (β : Type) where
+  | pass (r : Except Err (List β × Option Err))
+  | batch (b : Except Err (Option β))
+  | other
+
+def shown {β : Type} (deliver : Present → List Nat → β) : Out × Present → Shown β
+  | (.pass (.ok (bs, e)), p) => .pass (.ok (bs.map (deliver p), e))
+  | (.pass (.error e), _) => .pass (.error e)
+  | (.batch (.ok (some b)), p) => .batch (.ok (some (deliver p b)))
+  | (.batch (.ok none), _) => .batch (.ok none)
+  | (.batch (.error e), _) => .batch (.error e)
+  | _ => .other
+
+/-- `dataset[i]` of a `SpectDataSet` under the flags in force (`raw` = what is on disk; `tok` drops
+the segment columns of a reference row). With `suppress_alis` the tuple has no `ali` member: `none`
+here, the caller drops the member (as for `spectCollate`). -/
+def spectItemUnder {φ α ρ ι} (tok : ρ → ρ) (p : Present) (raw : SpectItem φ α ρ ι) : SpectItem φ α ρ ι :=
+  { raw with
+    ali := if p.suppressAlis then none else raw.ali
+    ref := if p.tokensOnly then raw.ref.map (fun r => r.map tok) else raw.ref }
+
+/-- What `SpectDataLoader.collate_fn` hands back for the index batch `b`: the batch in the layout
+`batch_first` asks for, and which optional tuple members exist. -/
+structure SpectDelivered (φ α ρ ι : Type) where
+  batch : SpectBatch φ α ρ ι
+  batchFirst : Bool
+  hasAlis : Bool
+  hasUttids : Bool
+
+def spectDeliver {φ α ρ ι} (padF : φ) (padA : α) (padR : ρ) (tok : ρ → ρ)
+    (data : Nat → SpectItem φ α ρ ι) (p : Present) (b : List Nat) : SpectDelivered φ α ρ ι :=
+  let items := b.map (fun i => spectItemUnder tok p (data i))
+  { batch := if p.batchFirst then spectCollate padF padA padR p.sortBatch items
+             else spectCollateTF padF padA padR p.sortBatch items
+    batchFirst := p.batchFirst
+    hasAlis := !p.suppressAlis
+    hasUttids := !p.suppressUttids }
+
+/-- `dataset[i]` of a `LangDataSet` under the flags in force. -/
+def langItemUnder {β ι} (tok : β → β) (p : Present) (raw : List β × ι) : List β × ι :=
+  (if p.tokensOnly then raw.1.map tok else raw.1, raw.2)
+
+/-- What `LangDataLoader.collate_fn` hands back: `((refs, ref_sizes, uttids), batch_first,
+has_uttids)`. -/
+def langDeliver {β ι} (pad : β) (tok : β → β) (data : Nat → List β × ι) (p : Present) (b : List Nat) :
+    (List (List β) × List Nat × List ι) × Bool × Bool :=
+  let items := b.map (fun i => langItemUnder tok p (data i))
+  (if p.batchFirst then langCollate pad p.sortBatch items else langCollateTF pad p.sortBatch items,
+   p.batchFirst, !p.suppressUttids)
+
 end PdtVerif.Batching
